@@ -63,6 +63,9 @@ impl Property for Prop {
                 // key 0: lengths 0 and 1; keys 1..=256: all 2-byte strings with first byte key-1;
                 // keys 257..: all 3-byte strings with first two bytes key-257
                 for st in &states {
+                    if crate::expired() {
+                        return;
+                    }
                     if key == 0 {
                         one(st, &[], "len0", rep, &replay);
                         for b in 0..=255u8 {
@@ -93,6 +96,9 @@ impl Property for Prop {
             }
             "headers" => {
                 for lo in 0..16u64 {
+                    if crate::expired() {
+                        return;
+                    }
                     let w = (key * 16 + lo) as u16;
                     let ann = (w & 0x0FFF) as usize + 2;
                     let lens = [2usize, 3, 4, ann.saturating_sub(1), ann, ann + 1, ann + 7];
